@@ -85,7 +85,8 @@ def oracle(c, r, cases, res):
     if tin is None or tout is None:
         return 'output cannot be scanned' if tout is None else None
     if loadlib.reordered_blocks(r.node):
-        key = lambda t: (t[0], repr(float(loadlib.number_value(t[1])[1]) + 0.0) if (t[0] == 'number' and loadlib.number_value(t[1])) else (loadlib.unescape_py(t[1][1:-1]) if t[0] == 'string' else t[1]))
+        # (the text of an A2ML block is kept with LF line ends whatever the file uses, as in the ordered comparison below)
+        key = lambda t: (t[0], repr(float(loadlib.number_value(t[1])[1]) + 0.0) if (t[0] == 'number' and loadlib.number_value(t[1])) else (loadlib.unescape_py(t[1][1:-1]) if t[0] == 'string' else (t[1].replace('\r\n', '\n') if t[0] == 'a2ml' else t[1])))
         if sorted(map(key, tin)) != sorted(map(key, tout)):
             return 'tokens lost or invented (document with position-restricted reordering)'
     else:
